@@ -145,6 +145,11 @@ def run(ctx, res):
         A0, f0 = impl.initial_texture(impl.TEX_KINDS[h % len(impl.TEX_KINDS)] if h < 4 or h % 6 < 2 else "nonuniform", rng, n)
         if h >= 4 and h % 6 >= 2:
             chi = float(rng.choice([0.3, 0.6, 0.9]))      # the variants below need grains under the threshold
+        if h % 6 == 1:
+            # sliding switched OFF (chi = 0, a falsy number) on a texture with very small grains: nothing is floored, nothing frozen
+            chi = 0.0
+            A0, f0 = impl.initial_texture("nonuniform", rng, n)
+            res.count("history:chi_zero_with_tiny_grains")
         m = M.Mineral(phase=phase, fabric=fabric, regime=impl._core.DeformationRegime.matrix_dislocation,
                       n_grains=n, fractions_init=f0.copy(), orientations_init=A0.copy())
         L = impl.make_L(impl.L_KINDS[h % len(impl.L_KINDS)], rng)
